@@ -103,7 +103,7 @@ def run_contract(contract, inputs, seconds=None):
         return None
     # old() values and raise conditions are functions of the pre-state: evaluate before the call
     rewritten = []
-    for (txt, node) in contract.ensures:
+    for (txt, node) in list(contract.ensures) + list(getattr(contract, 'bounded_ensures', [])):
         rw = _OldRewriter()
         n2 = rw.visit(copy.deepcopy(node))
         olds = []
@@ -210,7 +210,7 @@ def _check_call(contract, fn, names, a, kw):
     except (Unevaluable, api.PreFail):
         return fn(*a, **kw), None
     rewritten = []
-    for (txt, node) in contract.ensures:
+    for (txt, node) in list(contract.ensures) + list(getattr(contract, 'bounded_ensures', [])):
         rw = _OldRewriter()
         n2 = rw.visit(copy.deepcopy(node))
         olds = []
